@@ -9,6 +9,7 @@ import (
 	"time"
 
 	"github.com/douban/gobeansdb/utils"
+	"github.com/douban/gobeansdb/vhook"
 )
 
 const (
@@ -360,10 +361,12 @@ func (h *hintMgr) dump(chunkID, splitID int) (err error) {
 
 	path := h.getPath(chunkID, splitID, false)
 	logger.Infof("dump %s", path)
+	vhook.PointI("hint.dump.enter", int64(chunkID), int64(splitID))
 	sp.file, err = sp.buf.Dump(path)
 	if err == nil {
 		h.maxDumpedHintID.setIfLarger(chunkID, splitID)
 	}
+	vhook.PointI("hint.dump.beforeBufNil", int64(chunkID), int64(splitID))
 	sp.buf = nil
 	return nil
 }
@@ -439,6 +442,7 @@ func (h *hintMgr) dumpAndMerge(forGC bool) (maxSilence int64) {
 	}
 	if !(h.state&HintStateMerge != 0) && !forGC && (h.maxChunkID-h.collisions.Chunk > Conf.MergeInterval) {
 		logger.Infof("start merge goroutine")
+		vhook.PointI("hint.merge.spawn", int64(h.bucketID), 0)
 		go h.Merge(false)
 	}
 	return
@@ -453,6 +457,8 @@ func (h *hintMgr) RemoveMerged() {
 }
 
 func (h *hintMgr) Merge(forGC bool) (err error) {
+	vhook.PointS("hint.merge.enter", fmt.Sprint(forGC))
+	defer vhook.PointS("hint.merge.exit", fmt.Sprint(forGC))
 	defer func() {
 		if e := recover(); e != nil {
 			logger.Errorf("merge panic(%#v), stack: %s", e, utils.GetStack(1000))
